@@ -322,3 +322,19 @@ func (c SendCh[T]) Send(v T) { Send(c.ch, v) }
 
 // Sel adds `case ch <- v` to a select.
 func (c SendCh[T]) Sel(s *Select, v T) *Case[T] { return SelSend(s, c.ch, v) }
+
+// Shuffle replaces math/rand.Shuffle in instrumented code: natively it shuffles randomly; under a controlled
+// execution the permutation is an environment choice (default: identity), so that an explorer can enumerate all
+// orders.
+func Shuffle(n int, swap func(i, j int)) {
+	if !active.Load() {
+		nativeShuffle(n, swap)
+		return
+	}
+	// Fisher-Yates with chosen indices: position i is swapped with one of i..n-1 (choice 0 = itself).
+	for i := 0; i < n-1; i++ {
+		if j := i + Choose(n-i, 0, "shuffle"); j != i {
+			swap(i, j)
+		}
+	}
+}
